@@ -104,6 +104,22 @@ func (s *scalarEval) walk(env scalarEnv) (*ssa.Return, []*ssa.BasicBlock, string
 	b := fn.Blocks[0]
 	var path []*ssa.BasicBlock
 	vals := map[ssa.Value]bool{}
+	// the operand each phi took on the walked path (a value merged from two computations is, on this path, one of them)
+	phiSel := map[*ssa.Phi]ssa.Value{}
+	sel := func(v ssa.Value) ssa.Value {
+		for i := 0; i < 8; i++ {
+			p, ok := stripConv(v).(*ssa.Phi)
+			if !ok {
+				return v
+			}
+			nv, has := phiSel[p]
+			if !has {
+				return v
+			}
+			v = nv
+		}
+		return v
+	}
 	var valOf func(v ssa.Value) (bool, string)
 	valOf = func(v ssa.Value) (bool, string) {
 		if x, ok := vals[v]; ok {
@@ -128,8 +144,8 @@ func (s *scalarEval) walk(env scalarEnv) (*ssa.Return, []*ssa.BasicBlock, string
 				}
 			}
 			if cmpTok[x.Op] {
-				a, okA := s.name(x.X)
-				bb, okB := s.name(x.Y)
+				a, okA := s.name(sel(x.X))
+				bb, okB := s.name(sel(x.Y))
 				if okA && okB {
 					ra, hasA := env.rank[a]
 					rb, hasB := env.rank[bb]
@@ -161,6 +177,9 @@ func (s *scalarEval) walk(env scalarEnv) (*ssa.Return, []*ssa.BasicBlock, string
 			switch x := ins.(type) {
 			case *ssa.Phi:
 				for i, p := range b.Preds {
+					if p == prev {
+						phiSel[x] = x.Edges[i]
+					}
 					if p == prev && s.num != nil {
 						if n, ok := s.numOf(x.Edges[i], env, 0); ok {
 							if s.intVals == nil {
